@@ -79,7 +79,12 @@ type BaseInSession struct {
 	// goroutine (kick, group dispose) disposes the session
 	connMu       sync.Mutex
 	connDisposed bool
-	waitChan     chan error
+
+	// the audio and the video udp read goroutines pick the unpacker by the payload type of the packet they read,
+	// so both can end up in the same unpacker
+	audioUnpackMu sync.Mutex
+	videoUnpackMu sync.Mutex
+	waitChan      chan error
 
 	dumpReadAudioRtp base.LogDump
 	dumpReadVideoRtp base.LogDump
@@ -406,7 +411,9 @@ func (session *BaseInSession) handleRtpPacket(b []byte) error {
 		session.mu.Unlock()
 
 		if session.audioUnpacker != nil {
+			session.audioUnpackMu.Lock()
 			session.audioUnpacker.Feed(pkt)
+			session.audioUnpackMu.Unlock()
 		}
 	} else if session.sdpCtx.IsVideoPayloadTypeOrigin(packetType) {
 		if session.dumpReadVideoRtp.ShouldDump() {
@@ -421,7 +428,9 @@ func (session *BaseInSession) handleRtpPacket(b []byte) error {
 		session.mu.Unlock()
 
 		if session.videoUnpacker != nil {
+			session.videoUnpackMu.Lock()
 			session.videoUnpacker.Feed(pkt)
+			session.videoUnpackMu.Unlock()
 		}
 	} else {
 		// noop 因为前面已经判断过type了，所以永远不会走到这
